@@ -218,7 +218,8 @@ class Ctx:
         self.pid, self.tier, self.seed = pid, tier, seed
         self.rng = random.Random(seed)
         self.quick = tier == "quick"
-        self.tie_cases = []        # (op dict, impl lines, label)
+        self.tie_cases = []        # (op dict, impl lines, label, driver or None, compare or None)
+        self.broken = []           # obligations a property module found broken by itself
         self.tie_direct = []       # (label, impl value, model-op dict, comparator)
         self.oracle_evals = 0
         self.oracle_keys = set()
@@ -233,8 +234,14 @@ class Ctx:
         return np.random.default_rng(self.rng.getrandbits(63))
 
     # --- tie
-    def tie(self, op, impl_lines, label=None):
-        self.tie_cases.append((op, list(impl_lines), label or json.dumps(op)[:200]))
+    def tie(self, op, impl_lines, label=None, driver=None, compare=None):
+        """Register a correspondence case: `op` is sent to the Lean driver (default: the
+        property's own `Drivers/Cxx.lean`), its output block is compared with `impl_lines`."""
+        self.tie_cases.append((op, list(impl_lines), label or json.dumps(op)[:200], driver, compare))
+
+    def obligation_broken(self, name, detail):
+        """A proof obligation / source fingerprint / translator step found broken by the module."""
+        self.broken.append({"obligation": name, "detail": str(detail)[:3000]})
 
     # --- oracle
     def ok(self, key, nontrivial=True, sample=None):
@@ -331,14 +338,24 @@ def run_check(mod, pid, tier, seed, replay=None):
         print(f"CHECK-ERROR property={pid} harness exception (not a violation)")
         return 2
 
+    broken.extend(ctx.broken)
     tie_diffs = []
     if ctx.tie_cases and build_ok:
-        blocks = run_driver([c[0] for c in ctx.tie_cases], driver=getattr(mod, "DRIVER", f"Drivers/{pid}.lean"))
-        for (op, impl, label), model in zip(ctx.tie_cases, blocks):
-            cmp = getattr(mod, "compare", None)
-            d = cmp(op, impl, model) if cmp else diff_lines(impl, model)
-            if d:
-                tie_diffs.append({"op": op, "diff": d, "label": label})
+        default_driver = getattr(mod, "DRIVER", f"Drivers/{pid}.lean")
+        by_driver = {}
+        for c in ctx.tie_cases:
+            by_driver.setdefault(c[3] or default_driver, []).append(c)
+        for drv, cases in by_driver.items():
+            try:
+                blocks = run_driver([c[0] for c in cases], driver=drv)
+            except Exception as e:
+                broken.append({"obligation": f"driver {drv}", "detail": str(e)[:2000]})
+                continue
+            for (op, impl, label, _, ccmp), model in zip(cases, blocks):
+                cmp = ccmp or getattr(mod, "compare", None)
+                d = cmp(op, impl, model) if cmp else diff_lines(impl, model)
+                if d:
+                    tie_diffs.append({"op": op, "diff": d, "label": label})
     if tie_diffs:
         broken.append({"obligation": "correspondence model<->code",
                        "detail": json.dumps(tie_diffs[:5], default=str)[:3000],
